@@ -106,6 +106,20 @@ func (ex *Exec) jsonUnmarshal(data *Term, target Value) Value {
 		ex.decodeCarrier(data, doc, p, pt.Elem(), true)
 		return Iface{}
 	}
+	if jd, ok := ex.jwksOf(data); ok {
+		// a JWKS document built by verifnd.JWKS: well-formed; the repository's own decoder runs on it
+		if fn, custom := ex.hasMethod(types.NewPointer(pt.Elem()), "UnmarshalJSON"); custom {
+			r := ex.callFunction(fn, []Value{p, BytesV{T: data}}, nil)
+			if e, isErr := r.(Iface); isErr && e.T != nil {
+				return e
+			}
+			return Iface{}
+		}
+		if ex.decodeJWKS(jd, p, pt.Elem()) {
+			return Iface{}
+		}
+		panic(engineErr("json.Unmarshal of a verifnd.JWKS document into %s is not modelled", pt.Elem()))
+	}
 	if it, isI := pt.Elem().Underlying().(*types.Interface); isI && it.NumMethods() == 0 && data.IsLit() {
 		// a concrete document decoded into `any`: decided exactly by the host library
 		var probe interface{}
